@@ -10,8 +10,8 @@ import core, gen, layout, memo
 from gen import L, R, C
 from props import c13
 
-DEFS = ["plain", "target", "other", "undef"]
-REFS = ["direct", "word", "via_used", "via_unused", "nowhere"]
+DEFS = ["plain", "target", "other", "undef", "plaincmd+target", "plaincmd+other"]
+REFS = ["direct", "word", "via_used", "via_unused", "nowhere", "direct+word", "direct+via_used"]
 
 
 def structure(names_status, shell, rnd=None):
@@ -20,7 +20,7 @@ def structure(names_status, shell, rnd=None):
     items = [L("go")]
     defs, twin = [], []
     for k, (nm, (dstat, rstat)) in enumerate(names_status):
-        reach = rstat in ("direct", "word", "via_used")
+        reach = rstat in ("direct", "word", "via_used", "direct+word", "direct+via_used")
         mine = []
         if dstat == "plain":
             mine.append((nm, "", ("alt", [L("%s1" % nm.lower()), L("%s2" % nm.lower())])))
@@ -28,16 +28,22 @@ def structure(names_status, shell, rnd=None):
             mine.append((nm, shell, C("echo %s" % nm)))
         elif dstat == "other":
             mine.append((nm, others[k % len(others)], C("echo other %s" % nm)))
+        elif dstat == "plaincmd+target":
+            mine.append((nm, "", C("echo plain %s" % nm)))
+            mine.append((nm, shell, C("echo %s" % nm)))
+        elif dstat == "plaincmd+other":
+            mine.append((nm, "", C("echo plain %s" % nm)))
+            mine.append((nm, others[k % len(others)], C("echo other %s" % nm)))
         ref = R(nm)
         helper = "H" + nm
-        if rstat == "direct":
+        if rstat in ("direct", "direct+word", "direct+via_used"):
             items.append(ref)
-        elif rstat == "word":
+        if rstat in ("word", "direct+word"):
             items.append(("sub", [L("--%s=" % nm.lower()), ref]))
-        elif rstat == "via_used":
+        if rstat in ("via_used", "direct+via_used"):
             mine.append((helper, "", ("seq", [L("h%s" % nm.lower()), ref])))
             items.append(R(helper))
-        elif rstat == "via_unused":
+        if rstat == "via_unused":
             mine.append((helper, "", ("seq", [L("h%s" % nm.lower()), ref])))
         defs += mine
         if reach:
@@ -88,7 +94,7 @@ def run(tier):
     cases, nexh = build_corpus(tier, seed)
     rc = c13.decide("C15", tier, cases, ("warning_set", "warning_repeated", "exit"), t0, seed,
                     rule="exhaustive: two nonterminals x {plain, @target, @other shell, undefined} x {referenced directly, inside a word, only from a used "
-                         "definition, only from an unused definition, nowhere} = 400 structures x 4 shells (+ 1500 random structures over four names in "
+                         "definition, only from an unused definition, nowhere} (also plain+@target, plain+@other; referenced twice) = 1764 structures x 4 shells (+ 1500 random structures over four names in "
                          "thorough), each with its twin without the unreachable definitions; non-trivial = run with at least one warning line",
                     assumptions=["zsh scripts are written to a file named _cmd so that the file-name notice does not appear",
                                  "the twin grammar is derived by the generator by dropping the definitions it placed out of reach of the call variants"])
